@@ -504,7 +504,7 @@ class FieldValueSelector:
             else:
                 try:
                     value = node.typed_value  # type: ignore[assignment,unused-ignore]
-                except (KeyError, ValueError):
+                except (KeyError, ValueError, ArithmeticError):
                     for decoder in self.decoders:
                         if not isinstance(decoder, XsdWildcard):
                             if decoder.is_matching(node.name):
